@@ -99,6 +99,13 @@ def check_expr(case, rec):
     err2 = np.linalg.norm(np.asarray(own) - got)
     require(err2 <= TOL * scale, 'as_vector/as_matrix of the result differs from the independent contraction', err=err2)
     rec.metric('expr_err', err / scale)
+    # the dense conversion reflects the *current* tensors: edit one tensor in place and convert again
+    k = len(obj.A) // 2
+    if np.issubdtype(obj.A[k].dtype, np.inexact):
+        obj.A[k] *= 3.0
+        own2 = obj.as_vector() if is_state else obj.as_matrix()
+        err3 = np.linalg.norm(np.asarray(own2) - 3.0 * got)
+        require(err3 <= 3 * TOL * scale, 'dense conversion after an in-place tensor update does not reflect the update (stale result)', err=err3)
     rec.label('L=%d' % ev.L, 'ops=%d' % ev.n_ops, case['kind'])
     bonds = [len(q) for dsc in case['fam']['mps'] + case['fam']['mpo'] for q in dsc['qD']]
     rec.nontrivial = bool(np.linalg.norm(ref) > 1e-8 * scale and max(bonds) >= 2 and ev.n_ops >= 1)
@@ -192,6 +199,16 @@ def check_sparse(case, rec):
     e2 = np.max(np.abs(np.asarray(Ms.todense()) - ref)) if ref.size else 0
     require(e1 <= 1e-13 * scale * ref.shape[0], 'dense matrix form differs from the independent contraction', err=e1)
     require(e2 <= 1e-13 * scale * ref.shape[0], 'sparse matrix form differs from the dense one', err=e2)
+    # both forms again after in-place updates of the tensors (multi-step: convert, edit, convert)
+    if all(np.issubdtype(a.dtype, np.inexact) for a in op.A):
+        op.A[0] *= 2.0
+        op.A[-1] *= -1.5
+        f = 2.0 * -1.5 if len(op.A) > 1 else 2.0 * -1.5
+        Md2 = op.as_matrix(); Ms2 = op.as_matrix(sparse_format=True)
+        require(np.max(np.abs(np.asarray(Md2) - f * ref)) <= 1e-12 * scale * ref.shape[0] if ref.size else True,
+                'dense matrix form after an in-place tensor update does not reflect the update (stale result)')
+        require(np.max(np.abs(np.asarray(Ms2.todense()) - f * ref)) <= 1e-12 * scale * ref.shape[0] if ref.size else True,
+                'sparse matrix form after an in-place tensor update does not reflect the update (stale result)')
     rec.label('L=%d' % len(A0))
     rec.nontrivial = bool(np.linalg.norm(ref) > 0 and max(len(q) for q in case['obj']['qD']) >= 2)
 
